@@ -38,6 +38,7 @@ NOTES = {   # seeded changes that the checks missed when first evaluated, and wh
     "C17-m6": "round 3; missed at first (zero words hidden from the memory table under a write-back cache): the table histories now run with data caches",
     "C18-m5": "round 3; missed at first (one-entry read memo survives reset()): reset() inside memory histories, followed by a repetition of the last access",
     "C18-m6": "round 3; missed at first (only the last cell of a multi-cell read is range-checked on no-wrap memories): 2- and 4-cell accesses on the TOY memory starting below 0",
+    "C05-m8": "round 4; missed at first (.string delimiters removed with strip of the double quotes instead of [1:-1]: needs a single-quoted literal or a body that begins / ends with a quote character): the data generator now writes every literal form pp.quoted_string admits (either quote character, the other quote inside, the own quote escaped or doubled, backslash pairs, at the ends of the body as well)",
     "C03-m3": "missed at first (a flush hidden in the memory VIEW clears dirty bits, then a store hit, an eviction and a re-read); inspection calls added as an operation of the cache histories",
     "C08-m3": "missed at first by C08 (stall survives a flush when an ecall sits directly behind a jump; needs ecall adjacency); C08 got the exhaustive hazard alphabet with the flag off, generators got bare ecalls",
     "C08-m4": "missed at first by C08 (ecall drains only behind register-writing predecessors: store; store; ecall); same strengthening as C08-m3",
@@ -81,13 +82,13 @@ def main():
     ncaught = sum(1 for d in res.values() if d.get("caught"))
     txt = ("## 11. Seeded changes: which checks catch which\n\n"
            "Fresh sub-agents were given ONLY the text of one property and a scratch git worktree of /repo and asked for realistic\n"
-           "changes that break the property, keep all 242 tests green and need something specific to manifest (round 2 asked for\n"
+           "changes that break the property, keep all 242 tests green and need something specific to manifest (rounds 2-4 asked for\n"
            "changes that additionally need a COMBINATION of features).  Every change kept below was confirmed on a scratch worktree\n"
            "(patch applies, tests pass with it, demonstration fails with it and passes without it) and then evaluated with\n"
            "`tools/seed_eval.py`: apply to /repo, run the property's registered quick check, undo.  Column 'caught by' names the\n"
            "slice of the first replay: 'direct' = the property evaluated on the implementation alone, 'model≠impl' = the\n"
            "correspondence with the proved model.  Changes that were missed when first evaluated led to the strengthening noted;\n"
-           "no check was loosened.  `seeded/<name>/` holds patch.diff, demo.py, meta.json; `seeded/results.json` the raw results.\n\n"
+           "no check was loosened to catch or to miss a change (the audit-driven relaxations of section 13 were made independently and the 94 changes of rounds 1-3 were re-evaluated on /repo afterwards; the 16 changes of round 4 - C04, C05, C09, C10, C12, C14, C17, C19, two each - were evaluated with those final checks: 15 caught at once, C05-m8 after the generator extension noted in its row).  `seeded/<name>/` holds patch.diff, demo.py, meta.json; `seeded/results.json` the raw results.\n\n"
            f"Currently {ncaught} of {len(res)} evaluated changes are caught by the quick check of their own property.\n\n"
            "| change | prop | what it does | needs | caught by |\n|---|---|---|---|---|\n" + "\n".join(rows) + "\n\n"
            "---------------------------------------------------------------------------------------------------\n\n")
